@@ -229,8 +229,13 @@ def verify(f, timeout_s=20):
                 'reason': '; '.join(vac) if vac else 'False is not derivable from the hypotheses (5 s); %d normal / %d raising exits' % (len(rc['normal']), len(rc['raise']))})
     for (cl, hy0, goal) in obls:
         T = f.timeout or timeout_s
-        for aset in meta['axiom_sets']:
+        for ai, aset in enumerate(meta['axiom_sets']):
             hy = aset + hy0
+            if ai < len(meta['axiom_sets']) - 1:
+                # a smaller axiom selection: one short attempt (it either suffices at once or the full list is needed)
+                v = smt.prove(hy, goal, mode='int', timeout_s=min(T, 4), use_cvc5=False, opaque_mul=f.opaque_mul, uf_mod=f.uf_mod)
+                if v.status == 'proved': break
+                continue
             # proofs that exist are found within a second or two; a run that wanders off is cut short and repeated under other
             # seeds before the full budget is spent once
             v = smt.prove(hy, goal, mode='int', timeout_s=min(T, 8), use_cvc5=False, opaque_mul=f.opaque_mul, retries=3, uf_mod=f.uf_mod)
